@@ -1,8 +1,513 @@
-//! C09 — not built yet.
+//! C09 — JSON string escaping round-trips and escapes exactly the required set;
+//! the vectorised escape scanner finds exactly the first quote/backslash/C0 byte
+//! (DESIGN §4 C09).
 use crate::engine::*;
+use crate::gen::text::{self, Profile};
+use serde_json::json;
+use succinctly::jq::escape::{
+    escape_json_body, write_json_body_jq, write_json_body_jq_ascii, write_json_body_yq, write_json_body_yq_ascii,
+};
+use succinctly::yaml::simd::find_json_escape;
 
-pub const RULE: &str = "not built";
+pub const RULE: &str = "writers: (a) every Unicode scalar value, alone and inside a 70-byte ASCII frame whose left pad sweeps 0..36, x 4 writers (exhaustive); (b) generated strings of 0..300 chars (filler profiles ascii/mixed/multibyte/controls/any-scalar) with 1..8 convention-sensitive characters planted at chosen byte offsets mod 32; output decoded unit-by-unit with a harness JSON-string-body decoder: unit i decodes to char i, and is an escape iff the convention requires (jq: C0,DEL,quote,backslash; yq: C0,quote,backslash; ascii modes: + every non-ASCII char, output pure ASCII). scanner: arbitrary byte buffers (special-byte-rich, >=0x80-rich, sparse) x every start in 0..=len+2 against a naive loop. Non-trivial: >=1 escapable char and >=17 bytes; distinct by hash(string) / hash(bytes).";
+
+#[derive(Clone, Copy, Debug, PartialEq, Eq)]
+pub enum Conv {
+    Jq,
+    JqAscii,
+    Yq,
+    YqAscii,
+}
+
+pub const CONVS: [Conv; 4] = [Conv::Jq, Conv::JqAscii, Conv::Yq, Conv::YqAscii];
+
+impl Conv {
+    pub fn name(self) -> &'static str {
+        match self {
+            Conv::Jq => "jq",
+            Conv::JqAscii => "jq_ascii",
+            Conv::Yq => "yq",
+            Conv::YqAscii => "yq_ascii",
+        }
+    }
+    /// The statement's escape set.
+    pub fn must_escape(self, c: char) -> bool {
+        let cp = c as u32;
+        let base = cp < 0x20 || c == '"' || c == '\\';
+        match self {
+            Conv::Jq => base || cp == 0x7f,
+            Conv::JqAscii => base || cp == 0x7f || cp >= 0x80,
+            Conv::Yq => base,
+            Conv::YqAscii => base || cp >= 0x80,
+        }
+    }
+    pub fn ascii(self) -> bool {
+        matches!(self, Conv::JqAscii | Conv::YqAscii)
+    }
+    pub fn write(self, s: &str) -> Result<String, core::fmt::Error> {
+        let mut out = String::new();
+        match self {
+            Conv::Jq => write_json_body_jq(&mut out, s)?,
+            Conv::JqAscii => write_json_body_jq_ascii(&mut out, s)?,
+            Conv::Yq => write_json_body_yq(&mut out, s)?,
+            Conv::YqAscii => write_json_body_yq_ascii(&mut out, s)?,
+        }
+        Ok(out)
+    }
+    fn via_helper(self, s: &str) -> String {
+        match self {
+            Conv::Jq => escape_json_body(write_json_body_jq, s),
+            Conv::JqAscii => escape_json_body(write_json_body_jq_ascii, s),
+            Conv::Yq => escape_json_body(write_json_body_yq, s),
+            Conv::YqAscii => escape_json_body(write_json_body_yq_ascii, s),
+        }
+    }
+}
+
+/// One decoded unit of a JSON string body.
+#[derive(Clone, Copy, Debug, PartialEq, Eq)]
+pub struct Unit {
+    pub ch: char,
+    pub escaped: bool,
+}
+
+/// Harness-side decoder of a JSON string *body* (RFC 8259 §7, no surrounding
+/// quotes). Errors: raw quote, raw control < 0x20, bad escape, lone surrogate.
+pub fn decode_body(body: &str) -> Result<Vec<Unit>, String> {
+    let cs: Vec<char> = body.chars().collect();
+    let mut out = Vec::with_capacity(cs.len());
+    let hex4 = |cs: &[char], i: usize| -> Result<u32, String> {
+        if i + 4 > cs.len() {
+            return Err(format!("truncated \\u escape at char {}", i));
+        }
+        let mut v = 0u32;
+        for k in 0..4 {
+            let d = cs[i + k].to_digit(16).ok_or_else(|| format!("bad hex digit {:?} at char {}", cs[i + k], i + k))?;
+            v = v * 16 + d;
+        }
+        Ok(v)
+    };
+    let mut i = 0;
+    while i < cs.len() {
+        let c = cs[i];
+        if c == '"' {
+            return Err(format!("raw quote at char {}", i));
+        }
+        if (c as u32) < 0x20 {
+            return Err(format!("raw control U+{:04X} at char {}", c as u32, i));
+        }
+        if c != '\\' {
+            out.push(Unit { ch: c, escaped: false });
+            i += 1;
+            continue;
+        }
+        let e = *cs.get(i + 1).ok_or("dangling backslash")?;
+        let simple = match e {
+            '"' => Some('"'),
+            '\\' => Some('\\'),
+            '/' => Some('/'),
+            'b' => Some('\u{8}'),
+            'f' => Some('\u{c}'),
+            'n' => Some('\n'),
+            'r' => Some('\r'),
+            't' => Some('\t'),
+            _ => None,
+        };
+        if let Some(ch) = simple {
+            out.push(Unit { ch, escaped: true });
+            i += 2;
+            continue;
+        }
+        if e != 'u' {
+            return Err(format!("unknown escape \\{} at char {}", e, i));
+        }
+        let hi = hex4(&cs, i + 2)?;
+        i += 6;
+        if (0xD800..0xDC00).contains(&hi) {
+            if cs.get(i) == Some(&'\\') && cs.get(i + 1) == Some(&'u') {
+                let lo = hex4(&cs, i + 2)?;
+                if (0xDC00..0xE000).contains(&lo) {
+                    let cp = 0x10000 + ((hi - 0xD800) << 10) + (lo - 0xDC00);
+                    out.push(Unit { ch: char::from_u32(cp).ok_or("bad pair")?, escaped: true });
+                    i += 6;
+                    continue;
+                }
+            }
+            return Err(format!("lone high surrogate \\u{:04x}", hi));
+        }
+        if (0xDC00..0xE000).contains(&hi) {
+            return Err(format!("lone low surrogate \\u{:04x}", hi));
+        }
+        out.push(Unit { ch: char::from_u32(hi).ok_or("bad scalar")?, escaped: true });
+    }
+    Ok(out)
+}
+
+fn cp_tag(c: char) -> String {
+    format!("U+{:04X}", c as u32)
+}
+
+/// All assertions for one (string, convention).
+pub fn check_string(conv: Conv, s: &str, st: &mut Stats) -> Result<(), Fail> {
+    let tag = |what: &str| format!("C09/{}/{}", conv.name(), what);
+    let info = |out: &str| {
+        json!({"conv": conv.name(), "input_debug": format!("{:?}", s.chars().take(400).collect::<String>()), "input_hex": hex(&s.as_bytes()[..s.len().min(600)]), "output": out.chars().take(800).collect::<String>()})
+    };
+    let out = match conv.write(s) {
+        Ok(o) => o,
+        Err(_) => fail!(tag("writer-returned-error"), {"case": info("")}),
+    };
+    st.evals(1);
+    let units = match decode_body(&out) {
+        Ok(u) => u,
+        Err(e) => fail!(tag("output-not-a-json-string-body"), {"case": info(&out), "decode_error": e}),
+    };
+    if conv.ascii() && !out.is_ascii() {
+        fail!(tag("ascii-mode-output-not-ascii"), {"case": info(&out)});
+    }
+    let mut n = 0usize;
+    let mut it = units.iter();
+    for c in s.chars() {
+        let Some(un) = it.next() else {
+            fail!(tag("roundtrip/output-too-short"), {"case": info(&out), "missing_from_char_index": n});
+        };
+        if un.ch != c {
+            fail!(tag("roundtrip/char-mismatch"), {"case": info(&out), "index": n, "expected": cp_tag(c), "actual": cp_tag(un.ch)});
+        }
+        let must = conv.must_escape(c);
+        if un.escaped && !must {
+            fail!(tag("escaped-but-not-required"), {"case": info(&out), "index": n, "char": cp_tag(c)});
+        }
+        if !un.escaped && must {
+            fail!(tag("required-escape-left-raw"), {"case": info(&out), "index": n, "char": cp_tag(c)});
+        }
+        n += 1;
+    }
+    if it.next().is_some() {
+        fail!(tag("roundtrip/output-too-long"), {"case": info(&out), "input_chars": n, "output_units": units.len()});
+    }
+    Ok(())
+}
+
+// ------------------------------------------------------------------ generated strings
+
+pub struct StrCase {
+    pub s: String,
+    pub profile: Profile,
+    /// byte offsets at which a convention-sensitive character was planted
+    pub planted: Vec<usize>,
+}
+
+pub fn gen_string(u: &mut Src, max_chars: usize) -> StrCase {
+    let p = text::profile(u);
+    let nplant = match u.below(8) {
+        0 => 0,
+        1..=4 => 1 + u.below(2),
+        _ => 1 + u.below(8),
+    };
+    let budget = u.len_biased(max_chars, &[15, 16, 17, 31, 32, 33, 47, 48, 63, 64, 65, 96, 128]);
+    let mut s = String::new();
+    let mut planted = vec![];
+    let mut chars = 0usize;
+    for k in 0..=nplant {
+        // filler segment; for planted segments steer the next byte offset to a chosen residue mod 32
+        let seg = if nplant == 0 { budget } else { u.range(0, (budget / (nplant + 1)).max(1) + 40) };
+        let mut n = 0;
+        while n < seg && chars < max_chars {
+            s.push(text::filler_char(u, p));
+            n += 1;
+            chars += 1;
+        }
+        if k < nplant {
+            let want = u.below(32);
+            let mut guard = 0;
+            while s.len() % 32 != want && guard < 32 {
+                s.push(if p == Profile::AsciiOnly || u.bool() { 'x' } else { '~' });
+                guard += 1;
+            }
+            planted.push(s.len());
+            s.push(*u.pick(text::PLANTS));
+            chars += 1;
+        }
+    }
+    StrCase { s, profile: p, planted }
+}
+
+fn classify_string(c: &StrCase, st: &mut Stats) {
+    let s = &c.s;
+    let esc: Vec<usize> = s.char_indices().filter(|(_, ch)| CONVS.iter().any(|cv| !cv.ascii() && cv.must_escape(*ch))).map(|(i, _)| i).collect();
+    let nt = !esc.is_empty() && s.len() >= 17;
+    if nt {
+        st.nontrivial(hash_str(s));
+    }
+    st.class_if(nt, "nontrivial");
+    st.class_if(s.is_empty(), "empty");
+    st.class_if(s.len() >= 32, "len>=32");
+    st.class_if(s.len() >= 64, "len>=64");
+    st.class_if(!s.is_ascii(), "has-non-ascii");
+    st.class_if(s.chars().any(|c| c as u32 >= 0x10000), "has-astral");
+    st.class_if(s.contains('\u{7f}'), "has-DEL");
+    st.class_if(s.chars().any(|c| (0x80..0xa0).contains(&(c as u32))), "has-C1");
+    st.class_if(s.contains('\u{8}') || s.contains('\u{c}'), "has-BS-or-FF");
+    st.class(&format!("profile-{:?}", c.profile));
+    for &o in &esc {
+        if s.len() >= 17 {
+            st.class(&format!("escapable-at-byte-offset-mod32={:02}", o % 32));
+        }
+    }
+    // an escapable char directly after >= 32 clean bytes: the SIMD scanner's main loop finds it
+    let mut prev = 0usize;
+    let mut long_span = false;
+    for &o in &esc {
+        // yq's scanner only stops at C0/quote/backslash (DEL is raw there), close enough for a class
+        if o - prev >= 32 {
+            long_span = true;
+        }
+        prev = o + 1;
+    }
+    st.class_if(long_span, "clean-span>=32-before-escapable");
+    st.size(s.len());
+    let cls = if !nt { "trivial" } else if !s.is_ascii() { "nontrivial-non-ascii" } else { "nontrivial-ascii" };
+    st.sample(cls, || json!({"string_debug": format!("{:?}", s.chars().take(120).collect::<String>()), "bytes": s.len(), "planted_at": c.planted, "profile": format!("{:?}", c.profile)}));
+}
+
+// ------------------------------------------------------------------ scanner
+
+fn scan_model(b: &[u8], start: usize) -> usize {
+    let mut i = start;
+    while i < b.len() {
+        let x = b[i];
+        if x == b'"' || x == b'\\' || x < 0x20 {
+            return i;
+        }
+        i += 1;
+    }
+    b.len()
+}
+
+pub fn gen_scan_bytes(u: &mut Src, max: usize) -> (Vec<u8>, &'static str) {
+    let n = u.len_biased(max, &[15, 16, 17, 31, 32, 33, 47, 48, 49, 63, 64, 65, 95, 96, 97, 128]);
+    let kind = u.below(6);
+    let name = ["sparse-specials", "high-bytes", "uniform", "boundary-bytes", "clean-then-one", "signed-compare-trap"][kind];
+    let mut v = Vec::with_capacity(n);
+    match kind {
+        0 => {
+            // clean ASCII / high bytes with rare specials
+            for _ in 0..n {
+                v.push(if u.ratio(1, 24) { *u.pick(&[b'"', b'\\', 0x00, 0x1f, 0x0a, 0x09]) } else if u.ratio(1, 4) { 0x80 + u.below(0x80) as u8 } else { 0x20 + u.below(0x5f) as u8 });
+            }
+        }
+        1 => {
+            for _ in 0..n {
+                v.push(if u.ratio(1, 40) { u.below(0x20) as u8 } else { 0x80 + u.below(0x80) as u8 });
+            }
+        }
+        2 => v = u.bytes(n),
+        3 => {
+            // values next to every threshold of the predicate
+            let pool = [0x1e, 0x1f, 0x20, 0x21, 0x22, 0x23, 0x5b, 0x5c, 0x5d, 0x7f, 0x80, 0x9f, 0xa0, 0xa2, 0xdc, 0xff, 0x00];
+            for _ in 0..n {
+                v.push(if u.ratio(1, 6) { *u.pick(&pool) } else { *u.pick(&[0x20u8, 0x21, 0x23, 0x5b, 0x5d, 0x7f, 0x80, 0xff, 0xa2, 0xdc]) });
+            }
+        }
+        4 => {
+            let fill = *u.pick(&[b'a', 0x20, 0x7f, 0x80, 0xff, 0xa2]);
+            v = vec![fill; n];
+            if n > 0 {
+                let at = u.below(n);
+                v[at] = *u.pick(&[b'"', b'\\', 0x00, 0x1f, 0x0d]);
+            }
+        }
+        _ => {
+            // only bytes that a signed compare / wrong threshold would misread; no true special
+            for _ in 0..n {
+                v.push(*u.pick(&[0x80u8, 0x81, 0x9f, 0xbf, 0xc2, 0xe2, 0xf0, 0xff, 0x20, 0x21, 0x23, 0x5b, 0x5d, 0x7f, 0xa2, 0xdc]));
+            }
+        }
+    }
+    (v, name)
+}
+
+pub fn check_scan(b: &[u8], st: &mut Stats) -> Result<(), Fail> {
+    for start in 0..=b.len() + 2 {
+        let e = scan_model(b, start);
+        let a = find_json_escape(b, start);
+        if e != a {
+            fail!(format!("C09/find_json_escape/{}", if a < e { "stops-early" } else { "misses-special" }), {"bytes_hex": hex(b), "len": b.len(), "start": start, "expected": e, "actual": a});
+        }
+    }
+    st.evals(b.len() as u64 + 3);
+    Ok(())
+}
+
+fn scalar_from_index(i: u32) -> char {
+    // 0..0x10F800 -> all scalar values (skipping the surrogate gap)
+    let cp = if i >= 0xD800 { i + 0x800 } else { i };
+    char::from_u32(cp).expect("scalar")
+}
 
 pub fn run(cx: &mut Ctx) {
-    cx.infra("check not built");
+    cx.assume("JSON string-body decoder, escape-set predicates and the naive scanner loop are harness code (RFC 8259 section 7)");
+    cx.assume("only the dispatched scanner succinctly::yaml::simd::find_json_escape is reachable from outside the crate (AVX2 on this host); the per-kernel sse2/avx2/scalar entry points are pub(crate)");
+
+    for (name, v) in cx.replays.clone() {
+        if v["kind"] == "input" {
+            let r = replay_input(&v);
+            cx.replay_outcome(&name, r);
+        }
+    }
+
+    // (a) exhaustive over scalar values
+    cx.exhaustive(
+        "writers-every-scalar-value",
+        "every Unicode scalar value (1 112 064) as a 1-char string and inside an ASCII frame (left pad = cp mod 37, right pad 33), x 4 writers; decode + exact escape-set membership",
+        true,
+        |shard, nshards, st| {
+            const N: u32 = 0x110000 - 0x800;
+            let mut i = shard as u32;
+            let mut framed = String::with_capacity(80);
+            let mut one = String::with_capacity(4);
+            while i < N {
+                let c = scalar_from_index(i);
+                one.clear();
+                one.push(c);
+                framed.clear();
+                for _ in 0..(i % 37) {
+                    framed.push('a');
+                }
+                framed.push(c);
+                framed.push_str("bbbbbbbbbbbbbbbbbbbbbbbbbbbbbbbbb");
+                for conv in CONVS {
+                    check_string(conv, &one, st)?;
+                    check_string(conv, &framed, st)?;
+                }
+                if conv_class_boundary(c) {
+                    for conv in CONVS {
+                        let a = conv.via_helper(&framed);
+                        let b = conv.write(&framed).unwrap_or_default();
+                        check_eq!(format!("C09/{}/escape_json_body-differs-from-writer", conv.name()), b, a, {"char": cp_tag(c)});
+                    }
+                }
+                st.cases += 1;
+                if (c as u32) < 0x100 || i % 4099 == 0 {
+                    st.nontrivial(c as u64);
+                }
+                i += nshards as u32;
+            }
+            st.class("scalar-values-covered");
+            Ok(())
+        },
+    );
+
+    // (b) generated strings
+    let max_chars = 300;
+    cx.check(
+        "writers-generated-strings",
+        RULE,
+        Budget { quick: 1_200_000, thorough: 60_000_000, max_len: 1500 },
+        |u, st| {
+            let c = gen_string(u, max_chars);
+            classify_string(&c, st);
+            st.describe(|| json!({"string_debug": format!("{:?}", c.s), "string_hex": hex(c.s.as_bytes()), "planted_at": c.planted}));
+            for conv in CONVS {
+                check_string(conv, &c.s, st)?;
+            }
+            Ok(())
+        },
+    );
+    for r in 0..32 {
+        cx.require_class("writers-generated-strings", &format!("escapable-at-byte-offset-mod32={:02}", r), 50);
+    }
+    for cl in ["has-astral", "has-DEL", "has-C1", "has-BS-or-FF", "clean-span>=32-before-escapable", "len>=64"] {
+        cx.require_class("writers-generated-strings", cl, 50);
+    }
+
+    // (c) scanner
+    let max_scan = if cx.tier == Tier::Quick { 200 } else { 700 };
+    cx.check(
+        "scanner-vs-naive",
+        "byte buffers 0..200 (700 thorough) bytes in six families (sparse specials, >=0x80-heavy, uniform, threshold-neighbour values, clean-then-one, signed-compare traps) x every start in 0..=len+2; expected = naive loop over b[start..] for quote/backslash/<0x20, len when start>=len",
+        Budget { quick: 2_000_000, thorough: 90_000_000, max_len: 900 },
+        |u, st| {
+            let (b, kind) = gen_scan_bytes(u, max_scan);
+            let first = scan_model(&b, 0);
+            let nt = b.len() >= 17 && b.iter().any(|&x| x == b'"' || x == b'\\' || x < 0x20);
+            if nt {
+                st.nontrivial(hash_bytes(&b));
+            }
+            st.class_if(nt, "nontrivial");
+            st.class(&format!("family-{}", kind));
+            st.class_if(b.iter().any(|&x| x >= 0x80), "has-bytes>=0x80");
+            st.class_if(first >= 32 && first < b.len(), "first-special-after>=32-clean-bytes");
+            st.class_if(first == b.len() && b.len() >= 32, "no-special-len>=32");
+            if first < b.len() && b.len() >= 33 {
+                st.class(&format!("first-special-at-offset-mod32={:02}", first % 32));
+            }
+            st.size(b.len());
+            st.sample(kind, || json!({"bytes": show_bytes(&b[..b.len().min(80)]), "len": b.len(), "first_special": first}));
+            st.describe(|| json!({"bytes_hex": hex(&b)}));
+            check_scan(&b, st)
+        },
+    );
+    for cl in ["has-bytes>=0x80", "first-special-after>=32-clean-bytes", "no-special-len>=32"] {
+        cx.require_class("scanner-vs-naive", cl, 50);
+    }
+
+    // (d) scanner: every byte value at every position of a 0..=80-byte clean frame (complete family)
+    cx.exhaustive(
+        "scanner-every-byte-value-every-position",
+        "frame of clean filler (one of 'a', 0x7f, 0x80, 0xff) of length 1..=80, one position overwritten by every byte value 0..=255, every start 0..=len+2",
+        true,
+        |shard, nshards, st| {
+            let mut idx = 0usize;
+            for &fill in &[b'a', 0x7f, 0x80, 0xff] {
+                for len in 1..=80usize {
+                    idx += 1;
+                    if idx % nshards != shard {
+                        continue;
+                    }
+                    // positions: all for short frames, all for long frames too (80*256*83 is small)
+                    for pos in 0..len {
+                        let mut b = vec![fill; len];
+                        for v in 0..=255u8 {
+                            b[pos] = v;
+                            check_scan(&b, st)?;
+                            st.cases += 1;
+                        }
+                    }
+                }
+            }
+            Ok(())
+        },
+    );
+}
+
+/// Characters around every boundary of the escape sets (used to sample the helper).
+fn conv_class_boundary(c: char) -> bool {
+    let cp = c as u32;
+    cp <= 0x100 || matches!(cp, 0x7ff | 0x800 | 0xd7ff | 0xe000 | 0xffff | 0x10000 | 0x10ffff | 0x2028 | 0x2029)
+}
+
+fn replay_input(v: &serde_json::Value) -> Option<Fail> {
+    let mut st = Stats::default();
+    let inp = &v["input"];
+    match v["subcheck"].as_str().unwrap_or("") {
+        "scanner-vs-naive" => {
+            let b = unhex(inp["bytes_hex"].as_str().unwrap_or(""));
+            check_scan(&b, &mut st).err()
+        }
+        _ => {
+            let b = unhex(inp["string_hex"].as_str().unwrap_or(""));
+            let s = match String::from_utf8(b) {
+                Ok(s) => s,
+                Err(_) => return Some(Fail::new("C09/replay/bad-input", json!({}))),
+            };
+            for conv in CONVS {
+                if let Err(f) = check_string(conv, &s, &mut st) {
+                    return Some(f);
+                }
+            }
+            None
+        }
+    }
 }
